@@ -101,6 +101,12 @@ def run(ctx):
     # the production regime of the call site: C(n,3) far above the budget (sub-sampled triples must still be distinct)
     for n, budget in [(45, 5000), (60, 5000), (30, 800)] + ([] if ctx.quick else [(80, 5000), (120, 3000), (200, 5000)]):
         traces.append(_observe_dbal(n, budget, rnd.randrange(1 << 30)))
+    # one call on arrays of production size (a dozen 96-well plates): whatever the implementation does to bound its temporaries, the
+    # triples of the call are still distinct and complete
+    traces.append(_observe_dbal(30, 5000, rnd.randrange(1 << 30), P=12, E=96))
+    if not ctx.quick:
+        traces.append(_observe_dbal(40, 5000, rnd.randrange(1 << 30), P=24, E=96))
+        traces.append(_observe_dbal(25, 2300, rnd.randrange(1 << 30), P=6, E=384))
     # the scoring entry point: ONE scorer object used for several score() calls (different numbers of posterior samples, several
     # chunks of plates per call) - every chunk's triples must satisfy the clauses, whatever the object did before
     for _ in range(16 if ctx.quick else 120):
@@ -118,7 +124,7 @@ def _observe(idx, n, k):
             "raised": any(isinstance(x, str) for x in out + nxt)}
 
 
-def _observe_dbal(n, budget, seed):
+def _observe_dbal(n, budget, seed, P=2, E=3):
     picks = []
     real = G.get_combination_at_sorted_index
 
@@ -129,8 +135,8 @@ def _observe_dbal(n, budget, seed):
     G.get_combination_at_sorted_index = rec
     try:
         rng = np.random.default_rng(seed)
-        pred = rng.normal(size=(2, n, 3))
-        var = np.exp(rng.normal(size=(2, n, 3)))
+        pred = rng.normal(size=(P, n, E))
+        var = np.exp(rng.normal(size=(P, n, E)))
         d = np.abs(rng.normal(size=(n, n)))
         d = d + d.T
         st, v = outcome(G.dbal_fast_gauss_scoring_vectorized, pred, var, d, rng, max_combos=budget)
